@@ -278,6 +278,12 @@ func (rm *RequestManager) cancelRequest(requestID graphsync.RequestID, onTermina
 	if onTerminated != nil {
 		inProgressRequestStatus.onTerminated = append(inProgressRequestStatus.onTerminated, onTerminated)
 	}
+	if inProgressRequestStatus.state == graphsync.Running {
+		// stop the execution before the cancel is queued: an executor that is sending the request at
+		// this moment re-checks its context afterwards and cancels again behind the request. The other
+		// way round its request could replace this cancel in the outgoing message unnoticed
+		inProgressRequestStatus.cancelFn()
+	}
 	rm.SendRequest(inProgressRequestStatus.p, gsmsg.NewCancelRequest(requestID))
 	rm.cancelOnError(requestID, inProgressRequestStatus, terminalError)
 }
